@@ -21,6 +21,8 @@ package main
 // Needs zz_verif_l2_test.go (view generator, eligibility, Coq terms) and the layer2 overlay.
 
 import (
+	"bytes"
+	"crypto/sha256"
 	"fmt"
 	"math/rand"
 	"net"
@@ -41,7 +43,7 @@ import (
 
 type vmClient struct{}
 
-func (vmClient) UpdateStatus(*v1.Service) error                       { return nil }
+func (vmClient) UpdateStatus(*v1.Service) error                     { return nil }
 func (vmClient) Infof(*v1.Service, string, string, ...interface{})  {}
 func (vmClient) Errorf(*v1.Service, string, string, ...interface{}) {}
 
@@ -290,6 +292,63 @@ func (cl *vmCluster) announcers() []bool {
 	return out
 }
 
+// corpus/C12/sha-prefix-collisions.json (tools/shacollide): node-name pairs whose election digests
+// sha256("<node>#<address>") share exactly their first k bytes.  Random names never collide, so an
+// election that compares only a prefix of the digest (or an integer cut out of it) is
+// indistinguishable on them; on these pairs it leaves the order of the two best candidates to the
+// iteration order of a Go map, i.e. to chance, per call and per speaker.  Verified at run time.
+var vmCollisions = []struct {
+	ip, a, b string
+	k        int
+}{
+	{"10.20.30.1", "worker-5658", "worker-11019", 1},
+	{"10.20.30.1", "worker-3171", "worker-3233", 2},
+	{"10.20.30.1", "worker-2275", "worker-2430", 3},
+	{"10.20.30.1", "worker-24242", "worker-110566", 4},
+	{"10.20.30.1", "worker-1934765", "worker-2592385", 5},
+	{"fc00:f853:ccd:e799::1", "worker-2879", "worker-21338", 1},
+	{"fc00:f853:ccd:e799::1", "worker-209", "worker-1298", 2},
+	{"fc00:f853:ccd:e799::1", "worker-4023", "worker-4341", 3},
+	{"fc00:f853:ccd:e799::1", "worker-57043", "worker-109839", 4},
+	{"fc00:f853:ccd:e799::1", "worker-635262", "worker-824914", 5},
+	{"10.20.30.1", "worker-145313", "worker-169010", 4},
+	{"fc00:f853:ccd:e799::1", "worker-90607", "worker-171725", 4},
+}
+
+// the view of a collision history: the colliding pair and a third node whose digest is larger than
+// both (the pair ranks first and second), everybody eligible, one advertisement for all nodes
+func vmCollisionView(ip, a, b string, k int, disabled bool) vView {
+	da, db := sha256.Sum256([]byte(a+"#"+ip)), sha256.Sum256([]byte(b+"#"+ip))
+	sh := 0
+	for sh < 32 && da[sh] == db[sh] {
+		sh++
+	}
+	if sh != k {
+		panic(fmt.Sprintf("corpus/C12/sha-prefix-collisions.json is wrong: %s / %s for %s share %d bytes, not %d", a, b, ip, sh, k))
+	}
+	hi := da
+	if bytes.Compare(db[:], hi[:]) > 0 {
+		hi = db
+	}
+	third := ""
+	for i := 0; ; i++ {
+		third = fmt.Sprintf("zz-%d", i)
+		if d := sha256.Sum256([]byte(third + "#" + ip)); bytes.Compare(d[:], hi[:]) > 0 {
+			break
+		}
+	}
+	tr := true
+	v := vView{Names: []string{a, b, third}, Nodes: []vNode{{Known: true}, {Known: true}, {Known: true}}, Disabled: disabled,
+		Speakers: []int{0, 1, 2}, Advs: [][]int{{0, 1, 2}}, AdvFalse: [][]int{nil},
+		Eps: [][]vEP{{{Ready: &tr, Node: 0}, {Ready: &tr, Node: 2}}}}
+	if net.ParseIP(ip).To4() != nil {
+		v.IPs = []string{ip, vIPPool6[1]}
+	} else {
+		v.IPs = []string{ip, vIPPool4[1]}
+	}
+	return v
+}
+
 func TestVerifL2Multi(t *testing.T) {
 	out := vOpen()
 	defer out.Close()
@@ -297,8 +356,14 @@ func TestVerifL2Multi(t *testing.T) {
 	n := vN(40)
 	caseID := 0
 	universe := append(append([]string{}, vIPPool4...), vIPPool6...)
-	for h := 0; h < n; h++ {
-		v := vmGenView(r)
+	for h := -len(vmCollisions); h < n; h++ {
+		var v vView
+		if h < 0 { // the fixed corpus first: names whose digests collide on a prefix, memberlist on / off alternating
+			c := vmCollisions[h+len(vmCollisions)]
+			v = vmCollisionView(c.ip, c.a, c.b, c.k, (h+len(vmCollisions))%3 == 2)
+		} else {
+			v = vmGenView(r)
+		}
 		cl := vmNewCluster(t, v, false)
 		present := false
 		var trace []string
@@ -380,6 +445,19 @@ func TestVerifL2Multi(t *testing.T) {
 					return c
 				}
 			}
+		}
+		if h < 0 {
+			// several rounds: every SetBalancer re-runs the election in every speaker, each over its own
+			// map iteration order; every check also builds fresh speakers in the other listing order
+			present = true
+			cl.service(v, true)
+			check("announce (colliding digests rank first and second)")
+			for k := 0; k < 6; k++ {
+				cl.service(v, true)
+				check(fmt.Sprintf("resync %d", k))
+			}
+			out.Stat("l2multi_collision_histories", 1)
+			continue
 		}
 		// the directed part: announce, resync, same addresses in the other order, second address changed
 		present = true
